@@ -283,7 +283,10 @@ def oracle(ck, sid, lines, out):
                         c["rx_unacked"] = c.get("rx_unacked", 0) + 1
                 if t2[0] == "rxs" and c["alive"]:
                     d = int(t2[2]) if len(t2) > 2 else 0
-                    if d > 0 or (not c["started"] and not c.get("stop_pending")):
+                    # a connection that was deactivated by another connection's STARTDT (not by its own STOPDT act) still owes and is owed
+                    # acknowledgements; the server ends that phase with a STOPDT con of its own accord -- until then an S-frame
+                    # is not "an S-format APDU in the stopped state"
+                    if d > 0 or (not c["started"] and not c.get("stop_pending") and not c.get("deact")):
                         c["expect_close"] = True
                         c.setdefault("close_deadline", ti + 2)
                 if t2[0] in ("rxi", "rxs") and c["alive"] and not c.get("expect_close"):
@@ -308,6 +311,7 @@ def oracle(ck, sid, lines, out):
                     if p[2] == "CLOSED":
                         c["alive"] = False
                         c["started"] = False
+                        c["deact"] = False
                 if p[0] == "tx":
                     ci = int(p[1][1:])
                     c = conn(ci)
@@ -319,15 +323,20 @@ def oracle(ck, sid, lines, out):
                             # the started one, every other connection of the server is deactivated by that
                             for oc, od in st.items():
                                 if oc != ci:
+                                    if od["started"]:
+                                        od["deact"] = True
                                     od["started"] = False
                             c["started"] = True
                             c["stop_pending"] = False
+                            c["deact"] = False
                         elif a["kind"] == "U" and a["u"] == 0x23:
                             if c.get("ev_unacked", 0) > 0:
                                 problems.append(("stop_con_early", "STOPDT con sent while %d transmitted event ASDUs are unacknowledged" % c["ev_unacked"]))
-                            if c.get("rx_unacked", 0) > 0:
+                            solicited = c.get("stop_pending") or (last_rx is not None and last_rx[1] == ci and last_rx[0][0] == "rx" and bytes.fromhex(last_rx[0][2]) == apci.STOPDT_ACT)
+                            if c.get("rx_unacked", 0) > 0 and solicited:      # the clause is about the ANSWER to STOPDT act
                                 problems.append(("stop_con_before_ack", "STOPDT con sent before acknowledging %d received I-frames" % c["rx_unacked"]))
                             c["stop_pending"] = False
+                            c["deact"] = False
                         elif a["kind"] == "I":
                             if not c["started"]:
                                 problems.append(("i_not_started", "I-frame transmitted while data transfer is not started (N(S)=%d)" % a["ns"]))
